@@ -214,6 +214,28 @@ def run(ctx: Ctx) -> Result:
                 except BaseException as e: report('a permitted flagged signature is checked', cache, [permissive], 'runs', type(e).__name__)
                 got = F.run_auth_scripts([permissive + bytes([N['POP0']]) + G.push(s02), strict], dict(cache))
                 if got is not False: report('a signature flagged 02, first checked by the witness itself under allowance ff, then by the lock under allowance 00', cache, [permissive + bytes([N['POP0']]) + G.push(s02), strict], False, got)
+            # no bytes-keyed entry a witness can write widens what a lock permits: candidate names are every short bytes literal that
+            # occurs in the interpreter's source (whatever slot an instruction might read implicitly) plus obvious spellings
+            import re as _re, os as _os
+            try: src_ = open(_os.path.join(_os.path.dirname(F.__file__), 'functions.py'), encoding='utf-8').read()
+            except Exception: src_ = ''
+            names_ = {m_.encode() for m_ in _re.findall(r"b'([A-Za-z_][A-Za-z0-9_]{0,24})'", src_)} | {b'trsf', b'sigflags', b'flags', b'allowable_sigflags', b'af', b'allowed'}
+            T_ = vmrun.impl.tools()
+            seed_ = bytes(range(1, 33)); cache = {'sigfield1': b'abc', 'sigfield2': b'de', 'sigfield3': b'f'}
+            scr_ = T_.Script.from_src('true')
+            tlock = T_.make_taproot_lock(pk, scr_).bytes                       # allows flags 00 only
+            tw06 = T_.make_taproot_witness_keyspend(seed_, {'sigfield1': b'abc'}, scr_, sigflags='06').bytes      # signs sigfield1 only, flagged 06
+            s06 = sk.sign(b'abc').signature + b'\x06'
+            targets = (('taproot key path', tw06, tlock), ('CHECK_SIG', G.push(s06), G.push(pk) + bytes([N['CHECK_SIG'], 0])), ('CHECK_MULTISIG', G.push(s06), G.push(pk) + bytes([N['CHECK_MULTISIG'], 0, 1, 1])))
+            for what_, w_, l_ in targets:
+                base_ = F.run_auth_scripts([w_, l_], dict(cache))
+                if base_ is not False: report(f'{what_}: a signature flagged 06 against a lock that permits 00', cache, [w_, l_], False, base_)
+                for k_ in sorted(names_):
+                    for v_ in (b'\x06', b'\xff'):
+                        pre_ = G.push(v_) + bytes([N['WRITE_CACHE'], len(k_)]) + k_ + b'\x01'
+                        res.note_case(('permit-widening', what_, k_, v_))
+                        got = F.run_auth_scripts([pre_ + w_, l_], dict(cache))
+                        if got is not False: report(f'{what_}: signature flagged 06, lock permits 00, after the witness wrote cache[{k_!r}] = {v_.hex()}', cache, [pre_ + w_, l_], False, got)
             for name, val in (('timestamp', vmrun.NOW), ('sigfield3', b'embedder'), ('input_ts', 1700000000), ('note', 'text'), ('amount', 2.5)):
                 cache = {name: val}
                 probe = bytes([N['GET_VALUE'], len(name)]) + name.encode()
